@@ -182,7 +182,7 @@ Motl = cryomotl.Motl
 
 
 def get_motl_subset_ORIGINAL(self, feature_values, feature_id="tomo_id", return_df=False, reset_index=True):
-    if isinstance(feature_values, list):
+    if isinstance(feature_values, (list, np.ndarray)):
         feature_values = np.array(feature_values)
     else:
         feature_values = np.array([feature_values])
